@@ -30,7 +30,7 @@ from . import core
 SENTINEL = 987654.25
 
 # ---------------------------------------------------------------- configurations
-COMMON_INV = ["Aligned", "Owned", "ArrShared", "OrderFree", "Bounded", "TlValid", "FilesWellFormed"]
+COMMON_INV = ["Aligned", "Owned", "ArrShared", "OrderFree", "Bounded", "TlValid", "FilesWellFormed", "TrackingConserves"]
 
 CFGS = {
     # name: constants
@@ -79,14 +79,35 @@ CFGS = {
     "tr5": dict(InitVals="ValsTr", EmLists="ListsTr", EvLists="NoLists", TimeLists="TimeListsTr", Times="TimesTc",
                 MinRs="{0}", MutRs="{3}", MinDists="{0}", TlLists="NoLists", MinDurs="{0}", MaxDrops=16, MaxEms=0, MaxRefs=6, MaxEv=0,
                 MaxTcs=0, MaxTrks=3, MaxLen=3, Depth=5, Ops="OpsTr"),
+    # tracking on the heap: time courses built from emulsions, tracked, then edited
+    "tk4": dict(InitVals="ValsTk", EmLists="ListsTk", EvLists="EvListsTk", TimeLists="TimeListsTk", Times="{0, 1}",
+                MinRs="{0}", MutRs="{3}", MinDists="{0}", TlLists="NoLists", MinDurs="{0}", TrackMethods="MethodsAll", MaxDrops=24, MaxEms=8, MaxRefs=7, MaxEv=3,
+                MaxTcs=1, MaxTrks=8, MaxLen=3, Depth=4, Ops="OpsTk"),
+    "tk5": dict(InitVals="ValsTk", EmLists="ListsTk", EvLists="EvListsTk", TimeLists="TimeListsTk", Times="{0, 1}",
+                MinRs="{0}", MutRs="{3}", MinDists="{0}", TlLists="NoLists", MinDurs="{0}", TrackMethods="MethodsAll", MaxDrops=24, MaxEms=8, MaxRefs=7, MaxEv=3,
+                MaxTcs=1, MaxTrks=8, MaxLen=3, Depth=5, Ops="OpsTk"),
+    "tkq": dict(InitVals="ValsTk", EmLists="ListsTkQ", EvLists="EvListsTkQ", TimeLists="TimeListsTkQ", Times="{0}",
+                MinRs="{0}", MutRs="{3}", MinDists="{0}", TlLists="NoLists", MinDurs="{0}", TrackMethods="MethodsAll", MaxDrops=24, MaxEms=8, MaxRefs=7, MaxEv=2,
+                MaxTcs=1, MaxTrks=8, MaxLen=3, Depth=5, Ops="OpsTkQ"),
+    # track list files
+    "tfq": dict(InitVals="ValsTr", EmLists="ListsTfQ", EvLists="NoLists", TimeLists="TimeListsTfQ", Times="{4}",
+                MinRs="{0}", MutRs="{3}", MinDists="{0}", TlLists="TlListsTfQ", MinDurs="{0}", MaxDrops=20, MaxEms=0, MaxRefs=4, MaxEv=0,
+                MaxTcs=0, MaxTrks=5, MaxLen=3, Depth=5, Ops="OpsTfQ"),
+    "tf4": dict(InitVals="ValsTr", EmLists="ListsTr", EvLists="NoLists", TimeLists="TimeListsTr", Times="{4}",
+                MinRs="{0}", MutRs="{3}", MinDists="{0}", TlLists="TlListsA", MinDurs="{0}", MaxDrops=20, MaxEms=0, MaxRefs=5, MaxEv=0,
+                MaxTcs=0, MaxTrks=5, MaxLen=3, Depth=4, Ops="OpsTf"),
+    "tf5": dict(InitVals="ValsTr", EmLists="ListsTr", EvLists="NoLists", TimeLists="TimeListsTr", Times="{4}",
+                MinRs="{0}", MutRs="{3}", MinDists="{0}", TlLists="TlListsA", MinDurs="{0}", MaxDrops=20, MaxEms=0, MaxRefs=5, MaxEv=0,
+                MaxTcs=0, MaxTrks=5, MaxLen=3, Depth=5, Ops="OpsTf"),
 }
-QUICK = ["em3", "df3", "tc4", "tr3", "tl3", "io3"]
-THOROUGH = ["em4", "df4", "em5", "tc5", "tr4", "tl4", "io4"]
+QUICK = ["em3", "df3", "tc4", "tr3", "tl3", "io3", "tkq", "tfq"]
+THOROUGH = ["em4", "df4", "em5", "tc5", "tr4", "tl4", "io4", "tk4", "tf4", "tk5"]
 
 
 def cfg_text(name: str, observe: str = "ObservePrint") -> str:
     c = CFGS[name]
     lines = ["SPECIFICATION Spec", "CONSTANTS"]
+    c = {"TrackMethods": "NoMethods", **c}
     for k, v in c.items():
         if isinstance(v, int) or v.startswith("{"):
             lines.append(f"  {k} = {v}")
@@ -225,6 +246,22 @@ class World:
                 self.tls.append(self.tls[o["l"] - 1][o["lo"] : o["hi"]])
             elif op == "TlRemoveShort":
                 self.tls[o["l"] - 1].remove_short_tracks(o["md"])
+            elif op == "TlFromTc":
+                from droplets.droplet_tracks import DropletTrackList
+
+                kw = {"max_dist": o["md"]} if o["md"] >= 0 else {}
+                tl = DropletTrackList.from_emulsion_time_course(self.tcs[o["c"] - 1], method=o["meth"], **kw)
+                self.trks.extend(list.__iter__(tl))
+                self.tls.append(tl)
+            elif op == "TlSave":
+                self.file_kind[o["p"]] = "tl"
+                self.tls[o["l"] - 1].to_file(self.path(o["p"]))
+            elif op == "TlLoad":
+                from droplets.droplet_tracks import DropletTrackList
+
+                tl = DropletTrackList.from_file(self.path(o["p"]), progress=False)
+                self.trks.extend(list.__iter__(tl))
+                self.tls.append(tl)
             else:
                 raise core.MachineryError(f"unknown op {op}")
         except core.MachineryError:
@@ -490,6 +527,7 @@ def compare(w: World, t, q, fails: list) -> None:
                     fails.append("track-trajectory")
             if r.start != tr["times"][0] or r.end != tr["times"][-1]:
                 fails.append("track-start-end")
+    _equalities(w, q, fails)
     for c, tc in enumerate(t["tcs"]):
         near = q["near"][c]
         r = w.tcs[c]
@@ -500,6 +538,28 @@ def compare(w: World, t, q, fails: list) -> None:
             pairs = list(r.items())
             if [p[0] for p in pairs] != list(tc["times"]) or any(p[1] is not r.emulsions[i] for i, p in enumerate(pairs)):
                 fails.append("timecourse-items")
+
+
+def _equalities(w, q, fails):
+    """`==` between collections and DropletTrack.time_overlaps against the spec's definitions ("na": not modelled)"""
+    want = {"T": True, "F": False}
+    for name, objs in (("emeq", w.ev), ("tceq", w.tcs), ("trkeq", w.trks)):
+        for i, row in enumerate(q.get(name, [])):
+            for j, x in enumerate(row):
+                if x == "na":
+                    continue
+                try:
+                    got = objs[i] == objs[j]
+                except Exception as exc:  # noqa: BLE001
+                    got = f"raised {type(exc).__name__}"
+                if isinstance(got, str) or bool(got) != want[x]:
+                    fails.append(f"equality-{name}: {got!r} where the members are {'equal' if want[x] else 'different'}")
+    for i, row in enumerate(q.get("tov", [])):
+        for j, x in enumerate(row):
+            if x == "na":
+                continue
+            if bool(w.trks[i].time_overlaps(w.trks[j])) != want[x]:
+                fails.append("track-time-overlaps")
 
 
 def _definitions(em, fails):
